@@ -258,13 +258,17 @@ def qmul (self arg : Desc) : M Res := do
   if self.nrankV == 2 && (arg'.nrankV == 1 || arg'.nrankV == 2) then return ← dotPath self arg'
   throw (unsupported self arg)
 
-/-- `Matrix3.__mul__` (matrix3.py:342-363): a scalar operand is returned unchanged -/
+/-- `Matrix3.__mul__` (matrix3.py:342-371): a scalar operand is returned unchanged ("rotating a scalar"), broadcast to
+    the common LEADING shape (`Qube.broadcasted_shape`, ValueError if the leading shapes are incompatible) -/
 def matrix3Mul (self arg : Desc) : M Res := do
   -- only a raw operand is converted (Scalar.as_scalar); a polymath operand, Boolean included, is returned as is
   let arg' ← if arg.isQ then pure arg else asScalar arg
   if arg'.nrankV == 0 then
-    return { cls := arg'.cls, kind := arg'.kind, lead := arg'.shape, numer := [],
-             denom := arg'.denom, plan := .right }
+    match bcast self.shape arg'.shape with
+    | none => throw .valueError
+    | some out =>
+      return { cls := arg'.cls, kind := arg'.kind, lead := out, numer := [],
+               denom := arg'.denom, plan := .right }
   qmul self arg
 
 /-- `Qube.__rmul__` (qube.py:3158-3174): `arg * self` with a raw `arg` -/
@@ -297,8 +301,8 @@ def reciprocalRaises (d : Desc) : Bool :=
     vector with one denominator axis: property C16) -/
 def qdiv (self arg : Desc) (zeroNum : Bool) : Option (M Res) :=
   if arg.isNum then
-    -- _div_by_number: a zero divisor only sets the mask (the values keep their kind)
-    some (pure { cls := self.cls, kind := if zeroNum then self.kind else .float, lead := self.shape,
+    -- _div_by_number: floats, also for a zero divisor (which only adds the mask); `zeroNum` is no longer consulted
+    some (pure { cls := self.cls, kind := .float, lead := self.shape,
                  numer := self.numer, denom := self.denom, plan := .ew false 0 0 0 0 })
   else
     match asScalar arg with
@@ -320,7 +324,7 @@ def isMatrix (d : Desc) : Bool := d.cls == .matrix || d.cls == .matrix3
 def qfloorMod (isMod : Bool) (self arg : Desc) (zeroNum : Bool) : M Res := do
   if isMatrix self then throw (unsupported self arg)
   if isMod && arg.isNum then
-    return { cls := self.cls, kind := if zeroNum then self.kind else promote self.kind arg.kind, lead := self.shape,
+    return { cls := self.cls, kind := promote self.kind arg.kind, lead := self.shape,
              numer := self.numer, denom := self.denom, plan := .ew false 0 0 0 0 }
   let arg' ← asScalar arg
   if arg'.drank > 0 then throw .valueError
@@ -461,7 +465,10 @@ def mathFn (f : MathFn) (a : Desc) : Option (M Res) :=
     let ok (k : Kind) : M Res := pure { cls := .scalar, kind := k, lead := a.shape, numer := [], denom := [],
                                         plan := .ew false 0 0 0 0 }
     match f with
-    | .sign => if a.denom != [] || a.cls == .boolean then none else some (ok a.kind)
+    | .sign =>
+      if a.cls == .boolean then none
+      else some (pure { cls := .scalar, kind := a.kind, lead := a.shape, numer := [], denom := a.denom,
+                        plan := .ew false 0 0 0 0 })
     | .sin | .cos | .tan | .exp =>
       some (if a.denom != [] then throw .valueError else if !unitsIsAngle a.units then throw .valueError else ok .float)
     | .arcsin | .arccos | .arctan =>
